@@ -598,6 +598,7 @@ Verdict(c) ==
     [] c.op = "pair" -> PairCase(c)
     [] c.op = "xopt" -> XOptCase(c)
     [] c.op = "xspec" -> XSpecCase(c)
+    [] c.op = "hash-history" -> Chk(c.kind \o ":hash-contract-after-a-failed-hash", c.raised /\ c.eq /\ c.hash_eq /\ c.stable /\ c.in_set /\ c.repr_ok)
     [] c.op = "map" -> MapCase(c)
     [] c.op = "transpose" -> TransposeCase(c)
     [] c.op = "pickle" -> PickleCase(c)
